@@ -400,6 +400,8 @@ def creator_case(draw, tier="quick"):
     ndays = draw(st.one_of(st.integers(1, 365), st.sampled_from([1, 1, 2, 7, 28, 31, 364, 365, 90])))
     if draw(st.integers(0, 5)) == 0:
         i1, j1 = i0, j0  # a box holding a single grid cell
+        if draw(st.booleans()):
+            ndays = 1  # ... for a single day: the smallest subset there is
         bbox = [lons[j0] - draw(off), lats[i0] - draw(off), lons[j0] + draw(off), lats[i0] + draw(off)]
         bbox = [min(bbox[0], bbox[2]), min(bbox[1], bbox[3]), max(bbox[0], bbox[2]), max(bbox[1], bbox[3])]
     if draw(st.integers(0, 9)) == 0:
@@ -719,7 +721,7 @@ SUBS = [
     Sub("expr", expr_case, check_expr, quick=5000, thorough=100000),
     Sub("fx_history", None, check_history, quick=300, thorough=6000, machine=machine, steps=25),
     Sub("validator", token_case, check_tokens, quick=2500, thorough=40000),
-    Sub("creator", creator_case, check_creator, quick=300, thorough=3000),
+    Sub("creator", creator_case, check_creator, quick=600, thorough=3000),
     Sub("fuzz_tokens", None, check_fuzz_tokens, quick=0, thorough=0),  # driven by EXTRA (atheris); listed for replay
 ]
 REQUIRED_CLASSES = ["expr:neg", "expr:paren", "expr:numpy_stats", "fx_history:failed_eval_before_checked", "validator:near_miss",
